@@ -28,6 +28,7 @@ func c10World(tp *Tape, env *Env) (*Plan, *Violation) {
 	if tp.Chance(15, "withstops") {
 		cfg.WStop = 2
 	}
+	cfg.ReregInArgs = tp.Chance(20, "rereginargs")
 	g := &gen{tp: tp, cfg: cfg}
 	prog := g.program()
 	if cfg.WWait > 0 && tp.Chance(10, "hostwait") {
